@@ -7,7 +7,7 @@ Open Scope N_scope.
 
 (* a statement after parsing, as far as routing looks at it *)
 Inductive skind :=
-| KSet | KUse (db : str) | KKill | KShow | KDescribeTable | KDescribeSelect
+| KSet | KUse (db : str) | KKill | KShow | KDescribeTable | KDescribeSelect   (* DESCRIBE / EXPLAIN of a table | of anything else *)
 | KBegin | KCommit | KRollback
 | KSelect (fromless : bool)       (* exp.Select; fromless: no FROM / JOIN at its top level and no table in any subquery -
                                      a static query: it reads nothing *)
